@@ -34,6 +34,8 @@ func (o mop) String() string {
 		return "GetChangeCount"
 	case 'S':
 		return "SaveChanges"
+	case 'B':
+		return "MergeDB(donor holding the initial state, initial root)"
 	case 'F':
 		return "SaveChanges(store that rejects the write)"
 	case 'Z':
@@ -58,10 +60,12 @@ type c16 struct {
 }
 
 type mworld struct {
-	kids map[string]*util.MerklePatriciaTrie // children opened before the threads start (merge scenarios)
-	t    *util.MerklePatriciaTrie
-	db   util.NodeDB
-	save util.NodeDB
+	donor util.NodeDB // every node of the initial state (MergeDB scenarios)
+	root0 util.Key
+	kids  map[string]*util.MerklePatriciaTrie // children opened before the threads start (merge scenarios)
+	t     *util.MerklePatriciaTrie
+	db    util.NodeDB
+	save  util.NodeDB
 }
 
 func (c c16) build() *mworld {
@@ -107,6 +111,18 @@ func (c c16) build() *mworld {
 	}
 	for _, sc := range c.scripts {
 		for _, o := range sc {
+			if o.K == 'B' && w.donor == nil {
+				d := util.NewMemoryNodeDB()
+				w.root0 = append(util.Key{}, w.t.GetRoot()...)
+				src := util.NewMerklePatriciaTrie(w.t.GetNodeDB(), w.t.GetVersion(), w.root0, statecache.NewEmpty())
+				_ = src.Iterate(context.Background(), func(ctx context.Context, path util.Path, key util.Key, node util.Node) error {
+					if node != nil {
+						_ = d.PutNode(key, node.CloneNode())
+					}
+					return nil
+				}, util.NodeTypeLeafNode|util.NodeTypeFullNode|util.NodeTypeExtensionNode)
+				w.donor = d
+			}
 			if o.K == 'M' {
 				if w.kids == nil {
 					w.kids = map[string]*util.MerklePatriciaTrie{}
@@ -160,6 +176,8 @@ func (w *mworld) do(o mop) string {
 		return fmt.Sprint(w.t.GetChangeCount())
 	case 'S':
 		return fmt.Sprint(w.t.SaveChanges(context.Background(), w.save, false))
+	case 'B':
+		return fmt.Sprint(w.t.MergeDB(w.donor, w.root0, nil))
 	case 'F':
 		// the error path of a save: the target store rejects the batch
 		return fmt.Sprint(w.t.SaveChanges(context.Background(), rejectingDB{util.NewMemoryNodeDB()}, false))
@@ -345,6 +363,7 @@ func C16Scenarios() []sched.Scenario {
 			// (saves that fail are exercised in the free-running pass only, see failingSaves in stress.go: the error path of
 			// SaveChanges returns while its worker goroutine is still finishing, which cannot be replayed deterministically)
 			// (a save with a cancelled context is not explored: its worker goroutine outlives the call, which the cooperative scheduler does not model)
+			{name: "W||MergeDB", doc: "writer on a shared path || MergeDB of a donor holding the initial state (sync): the result is merge-then-insert or insert-then-merge, never a root with absent nodes", scripts: [][]mop{{{'I', "0a1d", "x"}, {'G', "0a1b", ""}}, {{'B', "", ""}}}},
 			{name: "W||W||R", doc: "two writers on keys sharing a prefix || reader", scripts: [][]mop{{{'I', "0a1b", "x"}}, {{'D', "0a1c", ""}}, {{'G', "0a1c", ""}}}},
 		}
 		for _, c := range cs {
